@@ -651,11 +651,12 @@ func (c *Compiler) compileSwitch(node *ast.Switch) error {
 	c.changeOperand(jumpDefaultPos, delta)
 
 	// Compile the default case block if it exists
-	if defaultJumpPos != -1 {
+	if defaultJumpPos != -1 && choices[defaultJumpPos].Block() != nil {
 		if err := c.compile(choices[defaultJumpPos].Block()); err != nil {
 			return err
 		}
 	} else {
+		// No default case, or an empty one
 		c.emit(op.Nil)
 	}
 
